@@ -133,7 +133,7 @@ func (x *Enc) evalAddr(env *specEnv, e ast.Expr) (Val, types.Type, bool) {
 		case *types.Slice:
 			s := env.eval(e.X)
 			i := env.eval(e.Index).ts[0]
-			return x.indexAddr(s.ts[0], plus(s.ts[1], i), t.Elem()), t.Elem(), true
+			return x.indexAddr(s.ts[0], sidx(s.ts[1], i), t.Elem()), t.Elem(), true
 		case *types.Array:
 			p, _, ok := x.evalAddr(env, e.X)
 			if !ok || p.fp != nil {
@@ -421,6 +421,18 @@ func (env *specEnv) call(e *ast.CallExpr) Val {
 	fun := ast.Unparen(e.Fun)
 	// generic instantiation f[T](...)
 	if ix, ok := fun.(*ast.IndexExpr); ok {
+		if id, isID := ix.X.(*ast.Ident); isID && id.Name == "verif_istype" {
+			// istype[T](x): the dynamic type of interface value x is T (T concrete) / implements T (T interface)
+			t := env.typeOf(ix.Index)
+			v := env.eval(e.Args[0])
+			if len(v.ts) != 2 {
+				return env.fail(e, "istype of non-interface")
+			}
+			if _, isIface := t.Underlying().(*types.Interface); isIface {
+				return Val{ts: []Term{and(not(eq(v.ts[0], "0")), app("implements", v.ts[0], x.typeID(t)))}}
+			}
+			return Val{ts: []Term{eq(v.ts[0], x.typeID(t))}}
+		}
 		fun = ix.X
 	}
 	if id, ok := fun.(*ast.Ident); ok {
@@ -456,6 +468,22 @@ func (env *specEnv) call(e *ast.CallExpr) Val {
 			return Val{ts: []Term{implies(env.eval(e.Args[0]).ts[0], env.eval(e.Args[1]).ts[0])}}
 		case "verif_iff":
 			return Val{ts: []Term{eq(env.eval(e.Args[0]).ts[0], env.eval(e.Args[1]).ts[0])}}
+		case "verif_fst", "verif_snd":
+			// projection of a two-result call: fst(f(x)), snd(f(x))
+			if len(e.Args) != 1 {
+				return env.fail(e, "fst/snd take one two-valued call")
+			}
+			tp, ok := env.typeOf(e.Args[0]).(*types.Tuple)
+			if !ok || tp.Len() != 2 {
+				return env.fail(e, "fst/snd of a non-pair")
+			}
+			tv := env.eval(e.Args[0])
+			k := 0
+			if id.Name == "verif_snd" {
+				k = 1
+			}
+			lo, hi := tupleRange(tp, k)
+			return Val{ts: tv.ts[lo:hi]}
 		case "verif_raw":
 			// the mathematical value of an integer/reference expression, without any conversion
 			v := env.eval(e.Args[0])
